@@ -76,7 +76,7 @@ Definition update_timer (c : tcfg) (s : tstate) (item : bool) (remains : N) : ts
   else if read_timeout s then
     mkT (ka_enabled s) (ka_timeout s) true (remains mod U32) (read_remains_prev s) (read_max_timeout s)
         (timer s) (dsp_timeout s) (now s) (stopped s)
-  else if (read_remains s =? 0) && (remains =? 0) then
+  else if ((read_remains s =? 0) && (remains =? 0)) || (match cfg_rr c with None => true | Some _ => false end) then
     if ka_enabled s && negb (ka_timeout s) then
       start_timer (mkT (ka_enabled s) true (read_timeout s) (read_remains s) (read_remains_prev s)
                        (read_max_timeout s) (timer s) (dsp_timeout s) (now s) (stopped s)) (cfg_ka c)
@@ -94,7 +94,8 @@ Definition handle_timeout (c : tcfg) (s : tstate) : res (tstate * list tout) :=
   if read_timeout s then
     match cfg_rr c with
     | Some p =>
-      let* total := sub_chk (read_remains s) (read_remains_prev s) in
+      (* saturating_sub: N subtraction truncates at 0 *)
+      let total := read_remains s - read_remains_prev s in
       if rr_rate p <? total then
         let mx := if rr_max p =? 0 then read_max_timeout s else read_max_timeout s - rr_timeout p in
         let s1 := mkT (ka_enabled s) (ka_timeout s) (read_timeout s) 0 (read_remains s) mx (timer s)
@@ -170,25 +171,6 @@ Fixpoint gaps_ok (ka c : N) (evs : list tevent) : bool :=
   | Tick :: r => (c + 1 <? ka) && gaps_ok ka (c + 1) r
   | Recv true _ :: r => gaps_ok ka 0 r
   | _ :: r => gaps_ok ka c r
-  end.
-
-(* the loop of Dispatcher::poll comes back to poll_recv_decode after a timeout that did not stop the
-   connection, unless the service is not ready: a bare Timeout is followed by Paused *)
-Fixpoint loop_ok (evs : list tevent) : bool :=
-  match evs with
-  | [] => true
-  | Timeout :: r => match r with Paused :: r' => loop_ok r' | _ => false end
-  | _ :: r => loop_ok r
-  end.
-
-(* the decoder consumes nothing until a frame is complete: between two frames the number of buffered
-   bytes reported by poll_recv_decode never decreases; buffers are shorter than 4 GiB *)
-Fixpoint mono (last : N) (evs : list tevent) : bool :=
-  match evs with
-  | [] => true
-  | Recv true r :: t => (r <? U32) && mono r t
-  | Recv false r :: t => (last <=? r) && (r <? U32) && mono r t
-  | _ :: t => mono last t
   end.
 
 (* ---- Handshake::ack ---- *)
